@@ -407,6 +407,16 @@ func sReplaceAll(s *Term, old, nw string) *Term {
 	if len(old) == 1 && nw == "" {
 		return sRemoveByte(s, old[0])
 	}
+	if len(old) == 1 && len(nw) == 1 {
+		// one character for another: position-wise
+		c := sCap(s)
+		chars := make([]*Term, c)
+		for i := 0; i < c; i++ {
+			ch := sChar(s, i)
+			chars[i] = Ite(Eq(ch, BVC(8, uint64(old[0]))), BVC(8, uint64(nw[0])), ch)
+		}
+		return sMk(sLen8(s), chars)
+	}
 	bound := sCap(s)
 	if len(nw) > len(old) {
 		bound = sCap(s) * len(nw) / len(old)
